@@ -5,9 +5,6 @@ package nodes
 // Contracts checked by /verif/govc (contract-based deductive verification).
 // Comment-only: with the `verif` tag off this file is not even parsed.
 
-//@ func github.com/pokt-network/pocket-core/types.TimeTrack
-//@   trusted logging of elapsed wall time only
-//@   pure_fn
 
 // a send message results in exactly one bank transfer: from the message's sender, to its
 // recipient, of exactly its amount; it succeeds exactly when the bank accepted the transfer;
